@@ -557,6 +557,10 @@ Qed.
 Lemma clean_lt256 s : clean s -> Forall (fun ch => ch < 256) s.
 Proof. unfold clean. apply Forall_impl. intros a H. lia. Qed.
 
+Lemma lt256_app (a b : str) :
+  Forall (fun ch => ch < 256) a -> Forall (fun ch => ch < 256) b -> Forall (fun ch => ch < 256) (a ++ b).
+Proof. intros; apply Forall_app; now split. Qed.
+
 Lemma enc_replace_app a b : enc_replace (a ++ b) = enc_replace a ++ enc_replace b.
 Proof. unfold enc_replace. apply map_app. Qed.
 
@@ -607,8 +611,10 @@ Proof.
   intros Hc. unfold to_bytes.
   rewrite enc_strict_ok.
   - unfold nv_to_str. rewrite enc_replace_to_str. unfold SP. now rewrite <- !app_assoc.
-  - apply clean_lt256. repeat apply Forall_app; split; try apply method_clean.
-    all: repeat apply Forall_app; repeat split; try (apply clean_target; assumption).
-    all: try (unfold SP; repeat constructor; lia).
-    apply clean_b_ok. reflexivity.
+  - unfold SP.
+    apply lt256_app; [apply clean_lt256, method_clean|].
+    apply lt256_app; [repeat constructor; lia|].
+    apply lt256_app; [apply clean_lt256, clean_target; assumption|].
+    apply lt256_app; [repeat constructor; lia|].
+    apply clean_lt256, clean_b_ok. reflexivity.
 Qed.
